@@ -59,27 +59,63 @@ class ScriptedNeuron(InfernoNeuron):
 RED = {"sum": torch.sum, "mean": torch.mean, "amax": torch.amax}
 
 
+DEDICATED = ("DelayAdjustedSTDP", "DelayAdjustedSTDPD", "DelayAdjustedMSTDP", "DelayAdjustedMSTDPD")
+KERNEL = ("KernelSTDP", "DelayAdjustedKernelSTDP", "DelayAdjustedKernelSTDPD")
+DELAYPARAM = ("DelayAdjustedSTDPD", "DelayAdjustedMSTDPD", "DelayAdjustedKernelSTDPD")
+
+
+def zero_kernel(diff, **kwargs):
+    """a trainer-level default half kernel that a cell overrides: if the trainer ever used it the parts would be zero"""
+    return torch.zeros_like(diff)
+
+
 def mk_trainer(t):
+    """the trainer object, built from its constructor-level (default) hyperparameters"""
     red = RED[t["red"]]
     cls = t["cls"]
     if cls in ("DelayAdjustedSTDP", "DelayAdjustedMSTDP"):
         return getattr(learn, cls)(t["lr_pos"], t["lr_neg"], t["tc_pos"], t["tc_neg"], batch_reduction=red)
     if cls in ("DelayAdjustedSTDPD", "DelayAdjustedMSTDPD"):
         return getattr(learn, cls)(t["lr_neg"], t["lr_pos"], t["tc_neg"], t["tc_pos"], batch_reduction=red)
-    if cls in ("KernelSTDP", "DelayAdjustedKernelSTDP", "DelayAdjustedKernelSTDPD"):
-        kw = {"delayed": False} if cls == "KernelSTDP" else {}
-        return getattr(learn, cls)(functional.exp_stdp_post_kernel, functional.exp_stdp_pre_kernel,
+    if cls in KERNEL:
+        kw = {"delayed": bool(t.get("delayed", False))} if cls == "KernelSTDP" else {}
+        kpost = zero_kernel if t.get("zero_kernels") else functional.exp_stdp_post_kernel
+        kpre = zero_kernel if t.get("zero_kernels") else functional.exp_stdp_pre_kernel
+        return getattr(learn, cls)(kpost, kpre,
                                    {"learning_rate": t["lr_post"], "time_constant": t["tc_post"]},
                                    {"learning_rate": t["lr_pre"], "time_constant": t["tc_pre"]},
                                    batch_reduction=red, **kw)
     raise ValueError(cls)
 
 
+def override_kwargs(t, keys, extra):
+    """register_cell(name, cell, **kwargs): the cell's own (effective) hyperparameters t, restricted to the overridden keys"""
+    kw = {}
+    for k in keys:
+        if k in ("lr_pos", "lr_neg", "tc_pos", "tc_neg"):
+            kw[k] = t[k]
+        elif k == "red":
+            kw["batch_reduction"] = RED[t["red"]]
+        elif k == "post":
+            kw["kernel_post_kwargs"] = {"learning_rate": t["lr_post"], "time_constant": t["tc_post"]}
+        elif k == "pre":
+            kw["kernel_pre_kwargs"] = {"learning_rate": t["lr_pre"], "time_constant": t["tc_pre"]}
+        elif k == "kernels":
+            kw["kernel_post"] = functional.exp_stdp_post_kernel
+            kw["kernel_pre"] = functional.exp_stdp_pre_kernel
+        elif k == "delayed":
+            kw["delayed"] = False
+        else:
+            raise ValueError(k)
+    kw.update(extra or {})
+    return kw
+
+
 def flat(t):
     return [fhex(v) for v in t.detach().to(torch.float64).reshape(-1).tolist()]
 
 
-def run_cell(case):
+def build_cell(case):
     cs = dict(case["conn"])
     cs["synapse"] = {"cls": "DeltaCurrent"}
     cs["batch"] = case["B"]
@@ -88,56 +124,81 @@ def run_cell(case):
     layer = neural.Serial(conn, neu)
     KEEP.append(layer)
     conn.updater = conn.defaultupdater()
-    tr = mk_trainer(case["trainer"])
+    return cs, conn, neu, layer
+
+
+def run_cells(defaults, cells):
+    """ONE trainer object (constructor-level hyperparameters `defaults`) driving every cell of the group; each cell is
+    registered with its own keyword overrides (cell["override_keys"] of its effective hyperparameters cell["trainer"]).
+    All cells are stepped, then trainer(...) is called once, as a user would.  -> per cell, the list of step records"""
+    cls = defaults["cls"]
+    tr = mk_trainer(defaults)
     KEEP.append(tr)
-    tr.register_cell("c", layer.cell)
-    param = "delay" if case["trainer"]["cls"] in ("DelayAdjustedSTDPD", "DelayAdjustedMSTDPD",
-                                                 "DelayAdjustedKernelSTDPD") else "weight"
-    threefactor = case["trainer"]["cls"] in ("DelayAdjustedMSTDP", "DelayAdjustedMSTDPD")
-    B = case["B"]
-    out = []
-    for st in case["steps"]:
-        rec = {}
+    built = []
+    for j, case in enumerate(cells):
+        cs, conn, neu, layer = build_cell(case)
+        kw = override_kwargs(case["trainer"], case.get("override_keys", []), case.get("override_extra"))
+        tr.register_cell(f"c{j}", layer.cell, **kw)
+        built.append((cs, conn, neu, layer))
+    param = "delay" if cls in DELAYPARAM else "weight"
+    threefactor = cls in ("DelayAdjustedMSTDP", "DelayAdjustedMSTDPD")
+    out = [[] for _ in cells]
+    T = len(cells[0]["steps"])
+    for k in range(T):
+        recs = [{} for _ in cells]
         try:
-            if st.get("delay") is not None and conn.delay is not None:
-                with torch.no_grad():
-                    conn.delay = torch.tensor(st["delay"], dtype=torch.float64).reshape(conn.delay.shape)
-            x = torch.tensor(st["pre"], dtype=torch.float64).reshape(B, *conn.inshape)
-            neu.script = [torch.tensor(st["post"], dtype=torch.float64).reshape(B, *conn.outshape)]
-            layer(x)
-            mon = tr.get_unit("c").monitors
-            rec["pre"] = flat(mon["spike_pre"].peek())
-            rec["pre_shape"] = list(mon["spike_pre"].peek().shape)
-            rec["post"] = flat(mon["spike_post"].peek())
-            rec["delay"] = None if conn.delay is None else flat(conn.delay)
+            for j, (case, (cs, conn, neu, layer)) in enumerate(zip(cells, built)):
+                st = case["steps"][k]
+                B = case["B"]
+                if st.get("delay") is not None and conn.delay is not None:
+                    with torch.no_grad():
+                        conn.delay = torch.tensor(st["delay"], dtype=torch.float64).reshape(conn.delay.shape)
+                x = torch.tensor(st["pre"], dtype=torch.float64).reshape(B, *conn.inshape)
+                neu.script = [torch.tensor(st["post"], dtype=torch.float64).reshape(B, *conn.outshape)]
+                layer(x)
+                mon = tr.get_unit(f"c{j}").monitors
+                recs[j]["pre"] = flat(mon["spike_pre"].peek())
+                recs[j]["pre_shape"] = list(mon["spike_pre"].peek().shape)
+                recs[j]["post"] = flat(mon["spike_post"].peek())
+                recs[j]["delay"] = None if conn.delay is None else flat(conn.delay)
+            st0 = cells[0]["steps"][k]
             if threefactor:
-                sg = st["signal"]
+                sg = st0["signal"]
                 if isinstance(sg, list):
                     sg = torch.tensor(sg, dtype=torch.float64)
-                tr(sg, st.get("scale", 1.0))
+                tr(sg, st0.get("scale", 1.0))
             else:
                 tr()
-            acc = getattr(conn.updater, param)
-            pos, neg = acc.pos, acc.neg
-            rec["pos"] = None if pos is None else flat(pos)
-            rec["neg"] = None if neg is None else flat(neg)
-            if st.get("update"):
-                with torch.no_grad():
-                    before = getattr(conn, param).detach().clone()
-                    conn.update()
-                    after = getattr(conn, param).detach().clone()
-                    rec["before"] = flat(before)
-                    rec["after"] = flat(after)
-                    if param == "delay":
-                        conn.delay = conn.delay.clamp(0.0, float(cs["delay"]))
-            else:
-                conn.updater.clear()
+            for j, (case, (cs, conn, neu, layer)) in enumerate(zip(cells, built)):
+                st = case["steps"][k]
+                acc = getattr(conn.updater, param)
+                pos, neg = acc.pos, acc.neg
+                recs[j]["pos"] = None if pos is None else flat(pos)
+                recs[j]["neg"] = None if neg is None else flat(neg)
+                if st.get("update"):
+                    with torch.no_grad():
+                        before = getattr(conn, param).detach().clone()
+                        conn.update()
+                        after = getattr(conn, param).detach().clone()
+                        recs[j]["before"] = flat(before)
+                        recs[j]["after"] = flat(after)
+                        if param == "delay":
+                            conn.delay = conn.delay.clamp(0.0, float(cs["delay"]))
+                else:
+                    conn.updater.clear()
         except Exception as e:  # noqa: BLE001
-            rec = {"error": exc_code(e), "msg": f"{type(e).__name__}: {e}"[:300]}
-            out.append(rec)
+            err = {"error": exc_code(e), "msg": f"{type(e).__name__}: {e}"[:300]}
+            for o in out:
+                o.append(dict(err))
             break
-        out.append(rec)
+        for o, r in zip(out, recs):
+            o.append(r)
     return out
+
+
+def run_cell(case):
+    """a single cell whose trainer is constructed with exactly the cell's hyperparameters (no overrides)"""
+    return run_cells(case["trainer"], [case])[0]
 
 
 def run_kernel(case):
@@ -151,6 +212,8 @@ def handler(payload):
     for c in payload["cases"]:
         if c["kind"] == "kernel":
             res.append(run_kernel(c))
+        elif c["kind"] == "group":
+            res.append(run_cells(c["defaults"], c["cells"]))
         else:
             res.append(run_cell(c))
     return res
